@@ -213,11 +213,11 @@ func (x *Exec) evalBuiltin(st *State, e *ast.CallExpr, name string) []*Value {
 }
 
 func (x *Exec) mapDomOf(st *State, m *Value, u *types.Map) *Term {
-	ks := x.leavesOf(u.Key())
-	if len(ks) != 1 {
+	ks, ok := x.mapKeySort(u.Key())
+	if !ok {
 		return x.b.Fresh("dom", ArraySort(IntSort, BoolSort))
 	}
-	return x.b.Select(x.mapDom(st, u, ks[0].sort), m.scalar())
+	return x.b.Select(x.mapDom(st, u, ks), m.scalar())
 }
 
 func (x *Exec) evalMake(st *State, e *ast.CallExpr) *Value {
